@@ -336,6 +336,8 @@ def verify_one(key):
         if not obls and rec['status'] == 'ok':
             rec['status'] = 'vacuous'; rec['reason'] = 'zero obligations generated'
         rec['replay'] = cx.replay
+        if ex.loops_without_invariant:
+            rec['notes'] = list(rec.get('notes') or []) + [f'loops {sorted(ex.loops_without_invariant)}: no (statable) invariant in the contract, cut with true/false']
     except OutOfReach as ex_:
         rec['status'] = 'out-of-reach'; rec['reason'] = str(ex_)
     except Exception as ex_:      # engine error: never a verdict about the code
